@@ -497,7 +497,8 @@ ssize_t comp_read(zckCtx *zck, char *dst, size_t dst_size, bool use_dict) {
         if(zck->comp.data_idx == NULL) {
             zck->comp.data_idx = zck->index.first;
             /* Skip first chunk if it's an empty dict */
-            if(zck->comp.data_idx->comp_length == 0)
+            if(zck->comp.data_idx->comp_length == 0 &&
+               zck->comp.data_idx->length == 0)
                 zck->comp.data_idx = zck->comp.data_idx->next;
             if(!hash_init(zck, &(zck->check_chunk_hash),
                           &(zck->chunk_hash_type)))
